@@ -695,6 +695,89 @@ def r3_check_then_commit(rep, src, A):
         rep.ok('C14.R3', SITE, 'magic_attrs table', 'all four components intercepted', nontrivial=False)
 
 
+def r4_family(rep, src, tier, rule='C14.R4', keys=None):
+    """the constructor interpreted (sa.heap, CPython's regex engine on decided strings) on a family of strings -- every string of up to
+    three (thorough: five) characters over the characters the grammar distinguishes and some it excludes, and every composition
+    [epoch ":"] upstream ["-" revision] of parts chosen to sit on the boundaries (colons and hyphens inside the upstream part, empty parts,
+    excluded characters) -- TWICE over in one world, so that anything the class remembers from an earlier construction is in effect:
+    a string is accepted exactly when the Policy grammar has it, the object then shows the string and its three components as written,
+    and the second round answers as the first."""
+    import itertools
+    import re as _re
+    from .. import heap as H
+    mod = src.mod('debian_support')
+    f = src.func(SITE + '.__init__')
+    fget = src.func(SITE + '.__getattr__')
+    rep.saw_func(f)
+    valid_e, valid_n = _re.compile(REF_WITH_EPOCH), _re.compile(REF_NO_EPOCH)
+
+    def reference(s_):
+        if valid_e.fullmatch(s_):
+            ep_, rest_ = s_.split(':', 1)
+        elif valid_n.fullmatch(s_):
+            ep_, rest_ = None, s_
+        else:
+            return None
+        up_, rev_ = rest_.rsplit('-', 1) if '-' in rest_ else (rest_, None)
+        return {'full_version': s_, 'epoch': ep_, 'upstream_version': up_, 'debian_revision': rev_}
+    small = [''.join(t_) for n_ in range(0, 4) for t_ in itertools.product('1a.:-~+ \n_', repeat=n_)]
+    if tier == 'thorough':
+        small += [''.join(t_) for n_ in range(4, 6) for t_ in itertools.product('1a:-.~', repeat=n_)]
+    E = [None, '0', '12', '', 'a', '1:', '-1']
+    U = ['1', 'a', '1.0', '1:2', '1-2', '1:2-3', '~', '.', '+1', '', ' ', '1_', '1\n', '2007:03', '1.0-']
+    R = [None, '1', 'a.1', '', '1-', '1:', '+', '~', '1 ']
+    composed = [('' if e_ is None else e_ + ':') + u_ + ('' if r_ is None else '-' + r_) for e_ in E for u_ in U for r_ in R]
+    family = list(dict.fromkeys(small + composed))
+    heap = H.Heap(mod)
+    heap.native_regex = True
+    heap.intercept_setattr = True
+    it = H.Interp(heap)
+
+    def construct(s_):
+        me = heap.alloc('BaseVersion', {})
+        try:
+            it.call(H.Closure(f.node, {}, me, f.cls), [s_])
+        except H.Raised as x:
+            return 'raises ' + x.exc
+        out_ = {}
+        for pub_ in ('full_version', 'epoch', 'upstream_version', 'debian_revision'):
+            try:
+                v_ = it.call(H.Closure(fget.node, {}, me, fget.cls), [pub_])
+                out_[pub_] = v_.concrete() if hasattr(v_, 'concrete') else v_
+            except H.Raised as x_:
+                out_[pub_] = 'raises %s' % x_.exc
+        return out_
+    first = {}
+    bad = {'acc': None, 'rej': None, 'comp': None, 'exc': None, 'state': None}
+    for rnd in (1, 2):
+        for s_ in family:
+            got = construct(s_)
+            want = reference(s_)
+            if rnd == 1:
+                first[s_] = got
+            elif got != first[s_]:
+                bad['state'] = bad['state'] or 'Version(%r) %s the first time and %s the second time in one process: the answer depends on what was constructed before' % (
+                    s_, 'is refused (%s)' % first[s_] if isinstance(first[s_], str) else 'gives %r' % (first[s_],), 'is refused (%s)' % got if isinstance(got, str) else 'gives %r' % (got,))
+            if isinstance(got, str):
+                if got != 'raises ValueError':
+                    bad['exc'] = bad['exc'] or 'Version(%r) %s (an invalid version is refused with ValueError)' % (s_, got)
+                elif want is not None:
+                    bad['rej'] = bad['rej'] or 'the valid version string %r is refused' % s_
+            elif want is None:
+                bad['acc'] = bad['acc'] or 'the invalid version string %r is accepted (as %r)' % (s_, got)
+            elif got != want:
+                bad['comp'] = bad['comp'] or 'Version(%r) shows %r; written: %r' % (s_, got, want)
+    rep.analysed['paths'] += 2 * len(family)
+    for key, what in (('rej', 'valid strings are accepted'), ('acc', 'invalid strings are refused'), ('exc', 'refusals are ValueError'),
+                      ('comp', 'the object shows the string and its components as written'), ('state', 'a second construction answers as the first')):
+        if keys is not None and key not in keys:
+            continue
+        if bad[key]:
+            rep.fail(rule, f.site, what + ' (interpreted family)', bad[key], where=f.where)
+        else:
+            rep.ok(rule, f.site, what + ' (interpreted family)', '%d strings, constructed twice' % len(family))
+
+
 def check(src, rep, tier):
     rep.explanation = ('C14: (R1) DFA of the strings accepted by BaseVersion._set_full_version (regex literal + raise '
                        'guards, group-participation resolved by backtracking priority) is compared for equivalence with '
@@ -707,14 +790,22 @@ def check(src, rep, tier):
     rep.need('C14.R1', 2)
     rep.need('C14.R2', 2)
     rep.need('C14.R3', 4)
-    A = rep.guard('C14.R1', r1_accepted_set, src)
-    if A is not None:
-        rep.guard('C14.R2', r2_lossless, src, A)
-    if A is not None:
-        rep.guard('C14.R3', r3_check_then_commit, src, A)
-    else:
-        rep.error('C14.R3', 'not evaluated: the accepted language (C14.R1) is not available')
     from . import common
+    rep.need('C14.R4', 5)
+    n_v, n_e = len(rep.violations), len(rep.errors)
+    rep.guard('C14.R4', r4_family, src, tier)
+    family_holds = len(rep.violations) == n_v and len(rep.errors) == n_e
+    # the language-level readings (exact for ALL strings when the code is in their vocabulary: regex + guards on its groups)
+    soft = common.SoftErrors(rep, lambda: family_holds, 'the interpreted family of version strings (C14.R4), which holds')
+    A = soft.guard('C14.R1', r1_accepted_set, src)
+    if A is not None:
+        soft.guard('C14.R2', r2_lossless, src, A)
+    elif family_holds:
+        rep.min_instances['C14.R2'] = 0
+    if A is None:
+        from .. import rx as _rx
+        A = {'alpha': _rx.alphabet('str')}
+    rep.guard('C14.R3', r3_check_then_commit, src, A)
     rep.guard('C14.R3', common.check_error_construction, src, 'C14.R3', 'debian_support', None, 0)
     if tier == 'thorough':
         common.regex_audit(rep, src, 'C14', modules=['debian_support'])
